@@ -483,8 +483,41 @@ def srctext_rule(repo, res, rule="SRCTEXT"):
     res.check(same and n >= 2, rule, f"{rule}:main::aot:quoted-text-is-parsed-text", f"{n} diagnostic sites quote lines of the very text that was parsed", fn.loc())
 
 
+def duporder_rule(repo, res, rule="DUPORDER"):
+    """`Duplicate nonterminal definition` is reported at the later definition and `Previous definition` at the earlier one: the
+    error carries (previous, duplicate) -- main.rs prints them in that order.  At every place the error is built, the first span must
+    come from what was FOUND (the entry looked up in the map of definitions seen so far), the second from the definition in hand
+    (the loop's element)."""
+    n = 0
+    for q, f in sorted(repo.fns.items()):
+        sites = list(P.ctor_sites(f.body, "Error::DuplicateNonterminalDefinition"))
+        if not sites:
+            continue
+        envs = A.collect_envs(f)
+        for i, s_ in enumerate(sites):
+            args = s_.get("args") or []
+            if len(args) != 2:
+                continue
+            n += 1
+            t0, t1 = A.resolve(args[0], envs.get(id(s_))), A.resolve(args[1], envs.get(id(s_)))
+
+            def has(t, pred):
+                if isinstance(t, tuple):
+                    if t and isinstance(t[0], str) and pred(t):
+                        return True
+                    return any(has(x, pred) for x in t)
+                return False
+            looked_up = lambda t: t[0] == "mcall" and t[1] in ("get", "get_mut", "get_key_value", "get_full", "insert", "entry", "find")
+            found0, found1 = has(t0, looked_up), has(t1, looked_up)
+            ok = found0 and not found1
+            res.check(ok, rule, f"{rule}:{q}#{i + 1}", f"(previous = {A.show(t0)[:70]}, duplicate = {A.show(t1)[:50]})" + ("" if ok else
+                      ": the spans are not (found entry, definition in hand) -- `Duplicate ..` and `Previous definition` would be reported at each other's place"), f"{f.file}:{s_['l']}")
+    res.floor(rule, n, 2)
+
+
 def run(repo, res, tier):
     srctext_rule(repo, res)
+    duporder_rule(repo, res)
     from . import c15
     c15.book_rules(repo, res)  # which span is stored for `Unused` / `Unused specialization` / `Undefined` (the warning's place)
     from . import c11
